@@ -8,7 +8,8 @@ THEOREMS = ["Mpir.Printf.snprintf_bound", "Mpir.Printf.doprnti_eq_c99", "Mpir.Pr
 TRUSTED = ["hand-written models lean/Mpir/Model/Printf.lean of printf/doprnt.c, doprnti.c, doprntf.c, snprntffuns.c, asprntffuns.c, vasprintf.c and lean/Mpir/Model/Scanf.lean of scanf/doscan.c (tied by correspondence on every run)",
            "the C99 specification function cFormatCore/cprintfInt is written from ISO C99 7.19.6.1 and validated against glibc's snprintf on every run (glibc column of the gmp_snprintf_* ops)",
            "harness passes variable arguments as twelve 64-bit slots (x86-64 SysV ABI)"]
-ASSUMPTIONS = ["on record, judged not to violate C18 as worded: gmp_*scanf %Zx/%Qx does not accept a 0x/0X prefix, unlike C's %x (text printed with %#Zx is read back by %Zi); %% in a scanf format does not skip white space, unlike C99/glibc",
+ASSUMPTIONS = ["observation F2 (no property violation, output is right): printf/doprntf.c:252 `expval <<= 2` left-shifts a negative long for %Fa/%FA of values below 1 (undefined in C99 6.5.7p4, defined by gcc)",
+               "on record, judged not to violate C18 as worded: gmp_*scanf %Zx/%Qx does not accept a 0x/0X prefix, unlike C's %x (text printed with %#Zx is read back by %Zi); %% in a scanf format does not skip white space, unlike C99/glibc",
                "the round-trip op demands equality for the matching read conversion (%Zd for %Zd/%Zi output, %Zo for %Zo, %Zx for %Zx/%ZX without '#', %Zi for '#' forms and plain decimal); Q only without precision",
                "mpz_get_str/mpq_get_str digits are taken from their specification (natDigits); C06 owns their correctness",
                "the C library's vsnprintf is C99 conforming (returns the full length)",
@@ -215,7 +216,7 @@ def scan_positions(rng, tier):
                 yield "gmp_sscanf %s %s %s" % (sbytes(fw), sbytes(tys(f)), sbytes(text))
 
 # ---- %F: layout of doprntf.c around mpf_get_str digits
-F_GENERAL_EMPTYPREC = False     # "%.Fg": doprntf.c:85 passes MPF_SIGNIFICANT_DIGITS its arguments in the wrong order (reported as F1)
+F_GENERAL_EMPTYPREC = True      # "%.Fg": doprntf.c:85 used to pass MPF_SIGNIFICANT_DIGITS its arguments in the wrong order (F1, repaired a66b298)
 def fval(m, e2):
     """tokens `exp size [limbs]` of the mpf with value m * 2^e2"""
     neg = m < 0; m = abs(m)
@@ -257,3 +258,47 @@ def gen_ops(rng, tier, ctx=None):
     yield from scans(rng, tier)
     yield from scan_positions(rng, tier)
     yield from fgrid(rng, tier)
+
+
+def extra(ctx, cov):
+    """thorough tier: corpus, buffer-size sweeps, asprintf growth, mixed formats, %F (incl. 258-limb precision) and all
+    scanf ops once more through the shared sanitizer variant (vlib "asan": -fsanitize=address,bounds) (overruns of the bounded
+    writer, of the growing buffer, of mp_bases[] or of the scanner's store would abort there)."""
+    import os, random, glob
+    import vlib
+    if ctx.tier != "thorough":
+        cov["asan"] = "run in the thorough tier only"
+        return []
+    build = vlib.get_build("asan"); h = vlib.get_harness(build, "asan")
+    rng = random.Random("C18-asan-%d" % ctx.seed)
+    lines = []
+    for f in sorted(glob.glob(os.path.join(vlib.VERIF, "corpus", "C18", "*.ops"))):
+        lines += [l.rstrip("\n") for l in open(f) if l.strip() and not l.startswith("#")]
+    for g in (sizes_sweep, mixed, asprintf_lengths, scans, scan_positions, fgrid):
+        lines += list(g(rng, "quick"))
+    env = {"ASAN_OPTIONS": "detect_leaks=0"}
+    rc, out, err = vlib.run_stream(h, lines, env=env)
+    cov["asan_ops"] = len(lines)
+    bad = None
+    if rc != 0 or len(out) != len(lines):
+        # output is block buffered, so bisect for the first op on which the process dies
+        lo, hi = 0, len(lines)          # the prefix of length lo survives, of length hi dies
+        while hi - lo > 1:
+            mid = (lo + hi) // 2
+            r2, _, e2 = vlib.run_stream(h, lines[:mid], env=env)
+            if r2 != 0: hi = mid; err = e2
+            else: lo = mid
+        bad = (hi - 1, "harness exited with %d: %s" % (rc, next((l for l in err.split("\n") if "error" in l.lower()), "")))
+    else:
+        for i, o in enumerate(out):
+            if "!oob" in o or "!alloc" in o or "!nonul" in o: bad = (i, o); break
+    if bad is None: return []
+    k = min(bad[0], len(lines) - 1)
+    os.makedirs(os.path.join(vlib.VERIF, "replay"), exist_ok=True)
+    n = len(glob.glob(os.path.join(vlib.VERIF, "replay", "C18-asan-*.ops"))) + 1
+    path = os.path.join(vlib.VERIF, "replay", "C18-asan-%d.ops" % n)
+    with open(path, "w") as f:
+        f.write("# property C18: sanitizer build (VARIANT asan) reports on this op: %s\n" % bad[1][:300])
+        f.write("".join("# " + l + "\n" for l in err.split("\n")[:60]))
+        f.write(lines[k] + "\n")
+    return [("asan: %s | %s" % (lines[k][:200], bad[1][:200]), path)]
